@@ -458,8 +458,66 @@ def job_search(cfg):
     return res
 
 
+def job_reconstruct(cfg):
+    """Boundary faces rebuilt from the volume elements (`MeshIO.Surface_reconstruction`) of extruded NON-star-shaped domains (C shape, plate with
+    a through hole): one consistent orientation, i.e. the rebuilt boundary closes (sum int n dS = 0) and |int x.n dS| = 3 V.  The rebuilt mesh is
+    then translated by a SYMBOLIC vector: flux(d) = flux(0) + d . sum int n dS, so `|flux| = 3 V for all d` is decided by the solver and ties the
+    two facts together."""
+    from EasyFEA import ElemType
+    from EasyFEA.Geoms import Points, Point, Domain
+    from EasyFEA.Utilities import MeshIO
+
+    res = JobResult(cfg)
+    c = new_context()
+    facade.install()
+    shape, et = cfg["shape"], cfg["elem"]
+    key = f"reconstructed boundary of an extruded {shape} ({et})"
+    res.functions |= {"MeshIO.Surface_reconstruction", "_GroupElem.faces", "_GroupElem.Get_normals_e_pg", "Mesh.Translate"}
+    h, thick = 0.9, 1.25
+    if shape == "C":
+        contour, incl, area = Points([(0, 0), (3, 0), (3, 1), (1, 1), (1, 2), (3, 2), (3, 3), (0, 3)], h), [], 7.0
+    elif shape == "hole":
+        contour, incl, area = Domain(Point(0, 0), Point(3, 3), h), [Domain(Point(1.25, 1.0), Point(2.0, 2.25), h)], 9 - 0.75 * 1.25
+    else:
+        contour, incl, area = Points([(0, 0), (2, 0), (2, 1), (1, 1), (1, 2), (0, 2)], h), [], 3.0
+
+    def build():
+        return MeshIO.Surface_reconstruction(contour.Mesh_Extrude(incl, [0, 0, thick], [2], elemType=ElemType[et]))
+
+    mesh = build()
+    vol = Fraction(area) * Fraction(thick)
+    d = [c.var(f"d{i}", -2, 2) for i in range(3)]
+    res.symbols = 3
+    ns0, fl0 = boundary_integrals(mesh)
+    sgn = 1 if float(as_sym(fl0).const_value() if as_sym(fl0).is_const() else as_sym(fl0).shadow()) >= 0 else -1
+    mark = c.mark()
+    with facade.symbolic():
+        mesh.Translate(d[0], d[1], d[2])
+        nsum, flux = boundary_integrals(mesh)
+    pcs = c.pc_since(mark)
+    res.paths, res.path_conditions = 1, len(pcs)
+
+    def replay(env):
+        m2 = build()
+        df = [float(as_sym(x).eval({kk: float(v) for kk, v in {**c.shadow, **(env or {})}.items()})) for x in d]
+        m2.Translate(*df)
+        ns, fl = boundary_integrals(m2)
+        ns = np.array([float(v) for v in ns])
+        return (float(np.abs(ns).max()) > 1e-9 or abs(abs(float(fl)) - 3 * float(vol)) > 1e-8), {"translation": df, "sum_int_n": ns.tolist(), "flux_of_position_vector": float(fl), "three_times_volume": 3 * float(vol),
+                                                                                                    "boundary_faces": int(sum(g.Ne for g in m2.Get_list_groupElem(2)))}
+
+    for k in range(3):
+        res.record(f"{key}: rebuilt boundary closes, component {k}", prove_abs_le(as_sym(nsum[k]), TOL, pcs, key), replay, key=f"reconstructed boundary {shape}: closure")
+    res.record(f"{key}: |flux of x.n| = 3 V for all translations", prove_abs_le(as_sym(flux) - sgn * 3 * vol, TOL * 100, pcs, key), replay, key=f"reconstructed boundary {shape}: flux",
+               sample={"config": key, "obligation": "for all translations d in [-2,2]^3 of the rebuilt mesh: |sum int n dS| <= 1e-9 and | int x.n dS -+ 3 V | <= 1e-7 (the sign is the single orientation of the rebuilt boundary)"})
+    o = prove_abs_le(as_sym(flux) - sgn * 3 * vol * Fraction(1001, 1000), TOL * 100, pcs, "twin")
+    res.twin(f"{key} twin", o.status == "cex")
+    res.stubs |= facade.USED_STUBS
+    return res
+
+
 def job(cfg):
-    return {"locate": job_locate, "motion": job_motion, "search": job_search}[cfg["kind"]](cfg)
+    return {"reconstruct": job_reconstruct, "locate": job_locate, "motion": job_motion, "search": job_search}[cfg["kind"]](cfg)
 
 
 def main():
@@ -469,6 +527,9 @@ def main():
     el2 = ["TRI3", "QUAD4", "TRI6", "MIXED"] + (["TRI10", "TRI15", "QUAD8", "QUAD9"] if tier == "thorough" else [])
     el3 = ["TETRA4", "HEXA8", "PRISM6"] + (["TETRA10", "HEXA20", "PRISM15"] if tier == "thorough" else [])
     motions = ["T", "R", "S", "TRS"]
+    for shape, et in ((("C", "TETRA4"), ("hole", "PRISM6"), ("L", "HEXA8")) if tier == "quick" else
+                      (("C", "TETRA4"), ("C", "HEXA8"), ("hole", "PRISM6"), ("hole", "TETRA10"), ("L", "HEXA8"), ("C", "PRISM6"))):
+        configs.append({"kind": "reconstruct", "shape": shape, "elem": et})
     for i, et in enumerate(el2 + el3):
         for m in (motions if tier == "thorough" else [motions[i % 2 + 1], "TRS"] if et not in ("TRI3", "TETRA4") else motions):
             configs.append({"kind": "motion", "elem": et, "motion": m})
